@@ -291,7 +291,7 @@ func ruleL2(r *core.Run) {
 					dT := res.Of(x.Y).String()
 					slot := "int" + x.Op.String() + ":" + dT
 					seen[slot]++
-					key := core.Key("L2-div", r.P.Name(f), slot)
+					key := core.Key("L2-div", r.KeyName(f), slot)
 					checkDivisor(r, ck, key, x.Pos(), b, dT, "integer "+x.Op.String())
 				case ssa.CallInstruction:
 					cc := x.Common()
@@ -299,13 +299,13 @@ func ruleL2(r *core.Run) {
 					if d, ok := divisorOf(name, cc); ok {
 						nDiv++
 						dT := res.Of(d).String()
-						key := core.Key("L2-div", r.P.Name(f), name+":"+dT)
+						key := core.Key("L2-div", r.KeyName(f), name+":"+dT)
 						checkDivisor(r, ck, key, x.Pos(), b, dT, name)
 					}
 					if a, bb, ok := subOperands(name, cc); ok {
 						nSub++
 						aT, bT := res.Of(a).String(), res.Of(bb).String()
-						key := core.Key("L2-sub", r.P.Name(f), name+":"+aT+" - "+shorten(bT))
+						key := core.Key("L2-sub", r.KeyName(f), name+":"+aT+" - "+shorten(bT))
 						ea, eb := guard.Exact(aT), guard.Exact(bT)
 						atoms := []guard.Atom{
 							guard.True("sdk.Coin.IsGTE(" + ea + "," + eb + ")"),
@@ -576,7 +576,7 @@ func ruleL2Couple(r *core.Run) {
 					}
 					n++
 					yname, _ := res.CalleeName(&ycall.Call)
-					key := core.Key("L2-couple", r.P.Name(f), "slice indexed by position in result of "+yname)
+					key := core.Key("L2-couple", r.KeyName(f), "slice indexed by position in result of "+yname)
 					// blocks where the slice grows / the counter grows
 					grow := map[*ssa.BasicBlock]bool{}
 					for v := range phiWeb(ia.X) {
@@ -694,7 +694,7 @@ func ruleL2NilArg(r *core.Run) {
 						}
 						n++
 						cnt++
-						key := core.Key("L2-nilarg", r.P.Name(g), fmt.Sprintf("%s passed to %s#%d", p.Name(), name, cnt))
+						key := core.Key("L2-nilarg", r.KeyName(g), fmt.Sprintf("%s passed to %s#%d", p.Name(), name, cnt))
 						ok2, w := ck.MustPass(b, []guard.Atom{guard.Ne(fmt.Sprintf("#%d", pi), "nil")})
 						if ok2 {
 							r.Discharge("L2-nilarg", key, r.P.Pos(c.Pos()), fmt.Sprintf("parameter %s is nil at a block-hook call site and is tested != nil before it is handed to %s", p.Name(), name))
